@@ -81,10 +81,10 @@ def _setup(V, accel, depth, tag=""):
 
     arch = arch_for(accel)
     values = np.arange(depth, dtype=np.int8).reshape(1, 1, 1, depth)  # weight value == its output channel
-    wt = _Obj(name="w" + tag, values=values, value_id="wid" + tag, quantization=_Obj(scale_f32=1.0, zero_point=0), mem_area=MemArea.Dram,
+    wt = _Obj(name="w" + tag, values=values, value_id="wid" + tag, equivalence_id="weq", quantization=_Obj(scale_f32=1.0, zero_point=0), mem_area=MemArea.Dram,
               mem_type=MemType.Permanent_NPU)
     cons = _Obj(get_input_quantization=lambda: None, get_output_quantization=lambda: None)
-    st = _Obj(name="b" + tag, value_id="bid" + tag, consumer_list=[cons], mem_area=MemArea.Dram, mem_type=MemType.Permanent_NPU, element_size_bytes=0)
+    st = _Obj(name="b" + tag, value_id="bid" + tag, equivalence_id="beq", consumer_list=[cons], mem_area=MemArea.Dram, mem_type=MemType.Permanent_NPU, element_size_bytes=0)
     op = _Obj(type=Op.Conv2DBias, inputs=[_Obj(dtype=DataType.int8)], explicit_scaling=None)
     return arch, op, wt, st, Kernel(1, 1)
 
@@ -214,6 +214,66 @@ def cache(V, accel, first, second):
     want = sorted({d for d in second[:-1]})
     got = sorted({k.depth for k in t2.encoded_ranges})
     return [("tensor returned for the second request describes the second request's depth slices", got == want)]
+
+
+def cache_key(V, accel, diff):
+    """A cached encoding may only be reused when a fresh encoding would be byte-identical.  Two requests in one process; the second differs from
+    the first in exactly one input of the codec (`diff`), or in nothing.  The second weight tensor is a CLONE of the first as the graph optimiser
+    makes them (Tensor.clone keeps equivalence_id; a rewrite that changes the values, e.g. fixup_strided_conv, refreshes value_id only), so every
+    identity attribute that is NOT an identity of the values is equal across the two requests.  The codec is a stub that records what it was asked
+    to encode: the tensor returned for the second request must have been encoded from the second request's inputs."""
+    import ethosu.vela.weight_compressor as wc
+    from ethosu.vela.operation import Kernel, Op
+
+    depth = 32
+    arch, op, wt, st, kernel = _setup(V, accel, depth)
+    wt2 = _Obj(**wt.__dict__)
+    op2 = _Obj(**op.__dict__)
+    kernel2, bd2, offs2 = kernel, 16, [0, 16, 32]
+    if diff == "values":
+        wt2.values = (wt.values + 1).astype(wt.values.dtype)
+        wt2.value_id = "wid_rewritten"
+    elif diff == "dilation":
+        kernel2 = Kernel(1, 1, dilation_x=2, dilation_y=1)
+    elif diff == "block_depth":
+        bd2 = 8
+    elif diff == "offsets":
+        offs2 = [0, 8, 32]
+    elif diff == "block_type":
+        op2.type = Op.FullyConnected
+        wt2.values = wt.values.reshape(1, 1, 1, depth)
+    calls = []
+
+    def fake_encode_weights(accelerator, weights_volume, dilation_xy, ifm_bitdepth, ofm_block_depth, is_depthwise, block_traversal):
+        calls.append((int(weights_volume.reshape(-1)[0]) if weights_volume.size else None, tuple(dilation_xy), int(ofm_block_depth)))
+        return (_Stream(16) if V.symbolic else bytearray(16)), None
+
+    saved = (wc.encode_weights, wc._prepare_scale_and_bias, dict(wc.CompressedWeightCache.cache))
+    wc.CompressedWeightCache.cache.clear()
+    wc.encode_weights = fake_encode_weights
+    wc._prepare_scale_and_bias = lambda a, t, e: ([(c, 0) for c in range(depth)], list(range(depth)))
+    V.int("unused", 0, 0)
+    try:
+        with core.shims((wc, {"bytearray": _bytearray, "len": _slen, "int": core.IntShim})):
+            t1, _ = wc.encode_weight_and_scale_tensor(arch, op, wt, st, kernel, _Obj(ofm_block=_Obj(depth=16)), [0, 16, 32])
+            n1 = len(calls)
+            t2, _ = wc.encode_weight_and_scale_tensor(arch, op2, wt2, st, kernel2, _Obj(ofm_block=_Obj(depth=bd2)), list(offs2))
+    finally:
+        wc.encode_weights, wc._prepare_scale_and_bias = saved[:2]
+        wc.CompressedWeightCache.cache.clear()
+        wc.CompressedWeightCache.cache.update(saved[2])
+    second = calls[n1:]
+    if diff == "none":
+        return [("an identical request is served from the cache", t2 is t1 and not second)]
+    cl = [("a request that differs in %s is encoded afresh" % diff, t2 is not t1 and len(second) > 0)]
+    if second:
+        if diff == "values":
+            cl.append(("the fresh encoding uses the second tensor's values", all(c[0] == int(wt2.values.reshape(-1)[0]) for c in second[:1])))
+        if diff == "dilation":
+            cl.append(("the fresh encoding uses the second request's dilation", all(c[1] == (2, 1) for c in second)))
+        if diff == "block_depth":
+            cl.append(("the fresh encoding uses the second request's block depth", all(c[2] in {(8 + arch.ncores - 1 - core) // arch.ncores for core in range(arch.ncores)} for c in second)))  # split over the cores
+    return cl
 
 
 def bias(V):
@@ -471,7 +531,7 @@ def scale_quantisation(V, **params):
     return c09.qs(V, **params)
 
 
-FUNCS = {"scale_values": scale_values, "scale_quantisation": scale_quantisation, "buffering": buffering, "weight_ranges": weight_ranges, "codec_args": codec_args, "encode": encode, "cache": cache, "bias": bias, "bias_rejects": bias_rejects}
+FUNCS = {"scale_values": scale_values, "scale_quantisation": scale_quantisation, "buffering": buffering, "weight_ranges": weight_ranges, "codec_args": codec_args, "encode": encode, "cache": cache, "cache_key": cache_key, "bias": bias, "bias_rejects": bias_rejects}
 
 
 def instances(tier, seed):
@@ -485,6 +545,8 @@ def instances(tier, seed):
         for first, second in (([0, 16, 48, 64], [0, 16, 32, 48, 64]), ([0, 16, 32], [0, 16, 24, 32]), ([0, 32, 64], [0, 32, 48, 64]), ([0, 16, 32], [0, 16, 32])):
             out.append(dict(key="cache/%s/%s_then_%s" % (accel, "-".join(map(str, first)), "-".join(map(str, second))), fn="cache",
                             params=dict(accel=accel, first=first, second=second)))
+        for diff in ("none", "values", "dilation", "block_depth", "offsets", "block_type"):
+            out.append(dict(key="cache_key/%s/%s" % (accel, diff), fn="cache_key", params=dict(accel=accel, diff=diff)))
     for accel in ("Ethos_U55_32", "Ethos_U55_64", "Ethos_U55_128", "Ethos_U55_256", "Ethos_U65_256", "Ethos_U65_512"):
         for dx, dy in ((1, 1), (2, 1), (1, 2), (2, 2)):
             for bits, partk, dw in ((8, 0, 0), (16, 1, 0), (8, 0, 1)):
